@@ -8,6 +8,8 @@
 //                            bin case '<case string>'                    to replay one execution.
 #pragma once
 #include <chrono>
+#include <exception>
+#include <unistd.h>
 #include <cstdint>
 #include <cstdio>
 #include <cstdlib>
@@ -222,6 +224,24 @@ namespace vf
       s += "],\"note\":\"" + jesc( st.note ) + "\"}";
       printf( "STAT\t%s\n", s.c_str() );
       fflush( stdout );
+   }
+
+   // std::terminate inside a run = an exception could not reach the caller of parse() (e.g. thrown through a function that
+   // is wrongly noexcept).  Units that set term_site / term_case before each execution get a proper violation record instead
+   // of a dead shard.
+   inline std::string term_prop, term_site, term_case;
+   [[noreturn]] inline void on_terminate_generic()
+   {
+      violation( term_prop + "|std::terminate during the run: an exception could not reach the caller of parse()|" + term_site, "", term_case );
+      st.exhaustive = false;
+      st.note = "aborted by std::terminate inside the library; remaining executions of this shard not explored";
+      finish();
+      _exit( 0 );
+   }
+   inline void guard_terminate( const char* prop )
+   {
+      term_prop = prop;
+      std::set_terminate( on_terminate_generic );
    }
 
    // split helper for case strings
